@@ -5,6 +5,8 @@ The specification is Model/Spec.lean (`Spec.step`: an association list keyed by 
 -/
 import AskarModel.Model.Spec
 import AskarModel.Lemmas.Refine
+import AskarModel.Model.SqlShape
+import AskarModel.Generated.Stmts
 
 namespace Askar.Store
 
@@ -53,5 +55,26 @@ example : Inv {} := ⟨by simp [Sorted], by simp, by simp⟩
 example : KeyCoherent ⟨1, 0⟩ {} := by simp [KeyCoherent]
 example : (Spec.run (fun _ _ => false) 32 [] [.insert 2 "c" "n" [1] none none, .insert 2 "c" "n" [2] none none, .insert 1 "c" "n" [3] none none]).2
     = [.ok, .err .duplicate, .ok] := by decide
+
+/-! ### The model's statements are the source's statements
+    `Sql.Generated.*` is re-extracted from sqlite/mod.rs on every run; `Sql.Expected.*` is what
+    Model/Store.lean implements (`inScope`, `sameIdent`, `live`, INSERT OR IGNORE, UPDATE … RETURNING id). -/
+open Askar.Sql in
+theorem insert_stmt_matches_source : shapeOk Generated.insertQuery Expected.insertQuery = true := by decide
+open Askar.Sql in
+theorem update_stmt_matches_source : shapeOk Generated.updateQuery Expected.updateQuery = true := by decide
+open Askar.Sql in
+theorem delete_stmt_matches_source : shapeOk Generated.deleteQuery Expected.deleteQuery = true := by decide
+open Askar.Sql in
+theorem delete_all_stmt_matches_source : shapeOk Generated.deleteAllQuery Expected.deleteAllQuery = true := by decide
+open Askar.Sql in
+theorem fetch_stmt_matches_source : shapeOk Generated.fetchQuery Expected.fetchQuery = true := by decide
+open Askar.Sql in
+theorem scan_stmt_matches_source : shapeOk Generated.scanQuery Expected.scanQuery = true := by decide
+open Askar.Sql in
+theorem count_stmt_matches_source : shapeOk Generated.countQuery Expected.countQuery = true := by decide
+open Askar.Sql in
+theorem tag_stmts_match_source :
+    shapeOk Generated.tagInsertQuery Expected.tagInsertQuery = true ∧ shapeOk Generated.tagDeleteQuery Expected.tagDeleteQuery = true := by decide
 
 end Askar.Store
